@@ -227,7 +227,8 @@ fn run_schedule(sched: &[f64], assigns: &[Vec<Option<K>>], chain_first: bool, ra
                     viol!(sig, "selector key moved {:?} -> {:?} but the only justified move is {:?}", o.key, n.key, expected_move);
                 }
             } else if let Some(k2) = expected_move {
-                if k2 != o.key && assigned.is_none() {
+                // a no-op re-assignment of the key that just ended must not cancel the chain step
+                if k2 != o.key && (assigned.is_none() || assigned == ent.ended_prev) {
                     viol!("S5:chain-did-not-advance", "the governed animator ended on key {:?} in the previous frame, the chain maps it to {:?}, but the key is still {:?}", ent.ended_prev, k2, n.key);
                 }
             }
